@@ -6,7 +6,8 @@ from bv.hyp import run_given
 
 ID = "C17"
 LEVEL = "exploration"
-RULE = ("three described classes (AutoLength over a Data length, AutoLength over a repeated count, Auto(func) over an Int) x generic "
+RULE = ("five described hosts (AutoLength over a Data length, AutoLength over a repeated count, Auto(func) over an Int, the first one borrowed "
+        "through Ref(..., embed=True), the first one nested behind a Ref whose prototype was built with the described keyword) x generic "
         "and generated code (all 4 combinations of generate_for_pack/unpack): ALL histories of <=5 (quick) / <=6 (thorough) "
         "operations over a 13-operation alphabet {construct, construct with the keyword (a non-zero value; the value 0 together with the tracked field), unpack raw1/raw2, set tracked v1/v2, set "
         "described v1/v2, del described, pack, read, pack+read} executed from scratch (exhaustive), plus Hypothesis-generated "
@@ -18,7 +19,7 @@ ASSUMPTIONS = ["after unpack the described field is in computed mode (it has not
 
 SRC = '''
 from bisturi.packet import Packet
-from bisturi.field import Int, Data
+from bisturi.field import Int, Data, Ref
 from bisturi.descriptor import Auto, AutoLength
 class L(Packet):
     __bisturi__ = %(opts)r
@@ -32,6 +33,16 @@ class A(Packet):
     __bisturi__ = %(opts)r
     h = Int(1)
     v = Int(1).describe(Auto(lambda pkt: (pkt.h * 2 + 1) & 0xff))
+class E(Packet):
+    # the described field and the one it tracks are borrowed from an embedded packet
+    __bisturi__ = %(opts)r
+    x = Int(1)
+    sub = Ref(L, embed=True)
+class R(Packet):
+    # the described field lives in a nested packet whose PROTOTYPE was built with the keyword of the described field
+    __bisturi__ = %(opts)r
+    x = Int(1)
+    inner = Ref(L(length=2, a=b'hi'))
 '''
 OPTS = [{"generate_for_pack": gp, "generate_for_unpack": gu} for gp in (True, False) for gu in (True, False)]
 # per class: described attr, tracked attr, tracked values, described values, raws (raw, tracked value parsed), compute, encode
@@ -42,6 +53,11 @@ SPEC = {
               raws=[(b"\x02\x07\x08", [7, 8]), (b"\x01\x09", [9])], compute=len, enc=lambda d, t: bytes([d]) + bytes(t)),
     "A": dict(desc="v", tracked="h", tv=[3, 200], dv=[0, 9], default=0,
               raws=[(b"\x04\x63", 4), (b"\x10\x21", 16)], compute=lambda h: (h * 2 + 1) & 0xff, enc=lambda d, t: bytes([t, d])),
+    "E": dict(desc="length", tracked="a", tv=[b"xy", b"abcd"], dv=[0, 7], default=b"",
+              raws=[(b"\x05\x02pq", b"pq"), (b"\x06\x00", b"")], compute=len, enc=lambda d, t: b"\x00" + bytes([d]) + t, keep_x=True),
+    "R": dict(desc="length", tracked="a", tv=[b"xy", b"abcd"], dv=[0, 7], default=b"", new_state=(b"hi", 2),
+              raws=[(b"\x05\x02pq", b"pq"), (b"\x06\x00", b"")], compute=len, enc=lambda d, t: b"\x00" + bytes([d]) + t, keep_x=True,
+              target=lambda pkt: pkt.inner, wrap=lambda module, kw: {"inner": module.L(**kw)}),
 }
 ALPHABET = ["new", "new_kw", "new_kw0", "unpack0", "unpack1", "set_t0", "set_t1", "set_d0", "set_d1", "del_d", "pack", "read", "pack_read"]
 
@@ -78,7 +94,9 @@ def run_history(ctx, module, cname, hist, describe):
     sp = SPEC[cname]
     cls = getattr(module, cname)
     pkt = cls()
-    T, E = sp["default"], None
+    T, E = sp.get("new_state", (sp["default"], None))
+    target = sp.get("target", lambda p: p)
+    wrap = sp.get("wrap", lambda m, kw: kw)
 
     def fail(sig, desc, step):
         ctx.violation(dict(describe, sig=sig, desc=desc, history=list(hist), step=step, cls=cname))
@@ -86,40 +104,42 @@ def run_history(ctx, module, cname, hist, describe):
     for step, op in enumerate(hist):
         try:
             if op == "new":
-                pkt = cls(); T, E = sp["default"], None
+                pkt = cls(); T, E = sp.get("new_state", (sp["default"], None))
             elif op == "new_kw":
-                pkt = cls(**{sp["desc"]: sp["dv"][1]}); T, E = sp["default"], sp["dv"][1]
+                pkt = cls(**wrap(module, {sp["desc"]: sp["dv"][1]})); T, E = sp["default"], sp["dv"][1]
             elif op == "new_kw0":
                 # the keyword names the described field AND the tracked one: an explicit 0 next to a non-empty tracked value
-                pkt = cls(**{sp["desc"]: sp["dv"][0], sp["tracked"]: sp["tv"][0]}); T, E = sp["tv"][0], sp["dv"][0]
+                pkt = cls(**wrap(module, {sp["desc"]: sp["dv"][0], sp["tracked"]: sp["tv"][0]})); T, E = sp["tv"][0], sp["dv"][0]
             elif op.startswith("unpack"):
                 raw, tv = sp["raws"][int(op[-1])]
                 pkt = cls.unpack(raw); T, E = tv, None
             elif op.startswith("set_t"):
                 v = sp["tv"][int(op[-1])]
-                setattr(pkt, sp["tracked"], list(v) if isinstance(v, list) else v); T = v
+                setattr(target(pkt), sp["tracked"], list(v) if isinstance(v, list) else v); T = v
             elif op.startswith("set_d"):
                 v = sp["dv"][int(op[-1])]
-                setattr(pkt, sp["desc"], v); E = v
+                setattr(target(pkt), sp["desc"], v); E = v
             elif op == "del_d":
-                delattr(pkt, sp["desc"]); E = None
+                delattr(target(pkt), sp["desc"]); E = None
             want = E if E is not None else sp["compute"](T)
             if op in ("read", "pack_read") or True:
-                got = getattr(pkt, sp["desc"])
+                got = getattr(target(pkt), sp["desc"])
                 if got != want:
                     fail("read-differs", "after %s the attribute reads %r, expected %r (tracked=%r explicit=%r)" % (op, got, want, T, E), step)
             if op in ("pack", "pack_read"):
                 out = pkt.pack()
                 exp = sp["enc"](want, T)
+                if sp.get("keep_x"):
+                    exp = bytes([pkt.x]) + exp[1:]
                 if out != exp:
                     fail("pack-differs", "pack() = %r, expected %r (attribute reads %r)" % (out, exp, want), step)
-                got = getattr(pkt, sp["desc"])
+                got = getattr(target(pkt), sp["desc"])
                 if got != want:
                     fail("read-after-pack-differs", "after pack() the attribute reads %r, expected %r" % (got, want), step)
-                tv = getattr(pkt, sp["tracked"])
+                tv = getattr(target(pkt), sp["tracked"])
                 if tv != T:
                     fail("tracked-changed", "tracked field changed to %r" % (tv,), step)
-            if hasattr(pkt, "__dict__"):
+            if hasattr(pkt, "__dict__") or hasattr(target(pkt), "__dict__"):
                 fail("has-dict", "instance has a __dict__", step)
         except Exception as e:
             from bv.runner import Violation
